@@ -311,6 +311,13 @@ func (g *G) genDidMsg() (sdk.Msg, string) {
 			doc.Id = ""
 			note = "did-update-to-blank-id-document"
 		}
+	} else if stored != nil && stored.Id != "" && g.chance("update-unchanged", 8) {
+		// the holder re-submits the document that is already stored, freshly proved
+		doc = &didtypes.DIDDocument{}
+		if err := doc.Unmarshal(docBytes(stored)); err != nil {
+			panic(err)
+		}
+		note = "did-update-unchanged-document"
 	} else {
 		doc = g.genDoc(docDID, newAuth)
 	}
